@@ -1,13 +1,14 @@
 package main
 
 import (
+	"golang.org/x/tools/go/ssa"
 	"strings"
 )
 
 func init() { props["C07"] = checkC07 }
 
 func checkC07(r *Run) {
-	r.Explain = "C07: (R1) the derived-index buckets (address index, unspent meta, the five history buckets) are written only by their accessors, reached only from block execution (ProcessBlock / ParseBlock) or the rebuild paths (buildAddrIndex / Erase); (R2) ProcessBlock co-updates: each deleted/inserted output is folded into the checksum, the address index is adjusted for every touched address and the index height is set to the block's sequence on success; (R3) poolAddrIndex.adjust rejects inconsistent removals/additions and deletes empty rows; (R4) ParseBlock records, for every transaction, the txn, every spent input (marking the output spent and indexing the owner address) and every created output, then the parsed height; the rebuild parses from the genesis block when nothing was parsed, in the same db transaction as the erase; (R5) predicted balances are confirmed - spent-by-pool + created-by-pool."
+	r.Explain = "C07: (R1) the derived-index buckets (address index, unspent meta, the five history buckets) are written only by their accessors, reached only from block execution (ProcessBlock / ParseBlock) or the rebuild paths (buildAddrIndex / Erase); (R2) ProcessBlock co-updates: each deleted/inserted output is folded into the checksum, the address index is adjusted for every touched address and the index height is set to the block's sequence on success; (R3) poolAddrIndex.adjust rejects inconsistent removals/additions and deletes empty rows; (R4) ParseBlock records, for every transaction, the txn, every spent input (marking the output spent and indexing the owner address) and every created output, then the parsed height; the rebuild parses from the genesis block when nothing was parsed, in the same db transaction as the erase; (R5) predicted balances: one db view reads head, all pool transactions, the outputs spent by all their inputs, the outputs they create for the requested addresses and the confirmed outputs; predicted[addr] = confirmed[addr].Sub(spentByPool[addr]).Add(incoming[addr]) with the same address on all three lookups; spentByPool groups by owner restricted to requested addresses; every requested address has an entry in the confirmed map (so the all-zero branch is dead); the four reported numbers are the coin/hour totals of the confirmed resp. predicted arrays at head time; one pair per address in order."
 	r.NotDec = "equality of the views with a recomputation for concrete histories"
 	// R1
 	allowed := map[string][]string{
@@ -115,45 +116,226 @@ func checkC07(r *Run) {
 			r.Check("C07-R4", "initHistory re-parses up to the chain head in the caller's transaction", r.P.Pos(cs.Pos()), ok, "")
 		}
 	}
-	// R5 predicted balance provenance
-	if fn := r.fn("C07-R5", "visor.Visor.GetBalanceOfAddresses:1"); fn != nil {
-		ff := r.P.Facts(fn)
-		found := false
-		for _, b := range fn.Blocks {
-			for _, in := range b.Instrs {
-				t := ""
-				if v, ok := in.(interface{ String() string }); ok {
-					_ = v
-				}
-				if c, ok := in.(interface{ Pos() interface{} }); ok {
-					_ = c
-				}
-				_ = t
+	// R5 predicted balance = confirmed - spent-by-pool + created-by-pool, for every requested address
+	c07Predicted(r)
+}
+
+func c07Predicted(r *Run) {
+	const gb = "visor.Visor.GetBalanceOfAddresses"
+	outer := r.fn("C07-R5", gb)
+	inner := r.fn("C07-R5", gb+":1")
+	if outer == nil || inner == nil {
+		return
+	}
+	fo, fi := r.P.Facts(outer), r.P.Facts(inner)
+	// roles of the captured variables, from what the db-view closure stores into them
+	var mc *ssa.MakeClosure
+	for _, b := range outer.Blocks {
+		for _, in := range b.Instrs {
+			if m, ok := in.(*ssa.MakeClosure); ok && m.Fn == inner {
+				mc = m
 			}
 		}
-		_ = found
-		_ = ff
 	}
-	predicted := false
-	for _, fn := range r.P.ModFns {
-		if !strings.HasPrefix(FnName(fn), "visor.Visor.GetBalanceOfAddresses") {
-			continue
-		}
-		ff := r.P.Facts(fn)
-		for _, b := range fn.Blocks {
-			for _, in := range b.Instrs {
-				if v, ok := in.(valueInstr); ok {
-					t := ff.Term(v)
-					if strings.HasPrefix(t, "coin.UxArray.Add(coin.UxArray.Sub(") && strings.Contains(t, "GetUnspentsOfAddr") {
-						predicted = true
-						okp := strings.Contains(t, "SpendsOfAddresses") || strings.Contains(t, "GetArray") || strings.Contains(t, "Unspent")
-						r.Check("C07-R5", "predicted balance = confirmed.Sub(spent by pool).Add(created by pool)", r.P.Pos(in.Pos()), okp, trunc(t, 300))
+	if mc == nil {
+		r.Fail("C07-R5", gb+": db-view closure", r.P.Pos(outer.Pos()), "anchor-unresolved: closure not found")
+		return
+	}
+	role := map[ssa.Value]string{} // outer alloc -> role
+	const ALL = "iface:visor.UnconfirmedTransactionPooler.AllRawTransactions(^vs.unconfirmed, $0)#0"
+	want := map[string]string{
+		"confirmed": "iface:visor/blockdb.UnspentPooler.GetUnspentsOfAddrs(iface:visor.Blockchainer.Unspent*(^vs.blockchain), $0, ^addrs)#0",
+		"incoming":  "visor.txnOutputsForAddrs(^head.Block.Head, ^addrs, " + ALL + ")#0",
+		"spent":     "iface:visor/blockdb.UnspentPooler.GetArray(iface:visor.Blockchainer.Unspent*(^vs.blockchain), $0, fold[acc=nil; append(acc, " + ALL + "[i].In)])#0",
+		"head":      "iface:visor.Blockchainer.Head(^vs.blockchain, $0)#0",
+	}
+	for _, b := range inner.Blocks {
+		for _, in := range b.Instrs {
+			st, ok := in.(*ssa.Store)
+			if !ok {
+				continue
+			}
+			fv, ok := st.Addr.(*ssa.FreeVar)
+			if !ok {
+				continue
+			}
+			t := fi.Term(st.Val)
+			for ro, pat := range want {
+				if glob(pat, t) {
+					for i, f := range inner.FreeVars {
+						if f == fv {
+							role[mc.Bindings[i]] = ro
+						}
 					}
 				}
 			}
 		}
 	}
-	if !predicted {
-		r.Note("C07-R5: predicted-balance expression not matched structurally; clause not decided on this tree")
+	for ro := range want {
+		found := false
+		for _, v := range role {
+			if v == ro {
+				found = true
+			}
+		}
+		desc := map[string]string{"confirmed": "the requested addresses' unspent outputs", "incoming": "outputs created for the requested addresses by ALL pool transactions, at the head block", "spent": "the outputs spent by ALL inputs of ALL pool transactions", "head": "the head block"}[ro]
+		r.Check("C07-R5", gb+": one db view reads "+desc, r.P.Pos(inner.Pos()), found, "")
+	}
+	r.RequireOnSuccess("C07-R5", gb+":1", req("head read", "ok(iface:visor.Blockchainer.Head(*))"), req("pool read", "ok(iface:visor.UnconfirmedTransactionPooler.AllRawTransactions(*))"),
+		req("incoming computed", "ok(visor.txnOutputsForAddrs(*))"), req("spent outputs read", "ok(iface:visor/blockdb.UnspentPooler.GetArray(*))"), req("confirmed read", "ok(iface:visor/blockdb.UnspentPooler.GetUnspentsOfAddrs(*))"))
+	roleOf := func(v ssa.Value) string { // value loaded from a captured variable
+		if u, ok := v.(*ssa.UnOp); ok {
+			return role[u.X]
+		}
+		return ""
+	}
+	// the predicted array
+	nP := 0
+	for _, b := range outer.Blocks {
+		for _, in := range b.Instrs {
+			add, ok := in.(*ssa.Call)
+			if !ok || calleeName(&add.Call) != "coin.UxArray.Add" {
+				continue
+			}
+			nP++
+			sub, ok := add.Call.Args[0].(*ssa.Call)
+			okShape := ok && calleeName(&sub.Call) == "coin.UxArray.Sub"
+			var key ssa.Value
+			var spendMap ssa.Value
+			if okShape {
+				// receiver of Sub: element of the confirmed map
+				if ex, ok := sub.Call.Args[0].(*ssa.Extract); ok {
+					if lk, ok := ex.Tuple.(*ssa.Lookup); ok && roleOf(lk.X) == "confirmed" {
+						key = lk.Index
+					}
+				}
+				if lk, ok := sub.Call.Args[1].(*ssa.Lookup); ok && key != nil && fo.Term(lk.Index) == fo.Term(key) {
+					spendMap = lk.X
+				} else {
+					okShape = false
+				}
+				if lk, ok := add.Call.Args[1].(*ssa.Lookup); !ok || key == nil || roleOf(lk.X) != "incoming" || fo.Term(lk.Index) != fo.Term(key) {
+					okShape = false
+				}
+			}
+			r.Check("C07-R5", gb+": predicted = confirmed[addr].Sub(spentByPool[addr]).Add(incoming[addr]) for the same address", r.P.Pos(add.Pos()), okShape && key != nil && fo.Term(key) == "$1[i]", "")
+			// spentByPool: built from the spent outputs, keyed by owner, restricted to the requested addresses
+			okSpend := false
+			if mm, ok := spendMap.(*ssa.MakeMap); ok {
+				for _, rf := range *mm.Referrers() {
+					mu, ok := rf.(*ssa.MapUpdate)
+					if !ok {
+						continue
+					}
+					t := fo.Term(mu.Value)
+					k := fo.Term(mu.Key)
+					if glob("append(*, [local:uxa[i]])", t) && k == "local:uxa[i].Body.Address" {
+						lp := fo.innermost[mu.Block()]
+						guard := false
+						for _, a := range fo.Must(mu.Block()) {
+							if a.S == "lookup(set{$1[i]}[local:uxa[i].Body.Address])#1" {
+								guard = true
+							}
+						}
+						okSpend = guard && lp != nil && glob("i < len(local:uxa)", fo.loopSpace(lp))
+					}
+				}
+			}
+			r.Check("C07-R5", gb+": spentByPool groups every spent output by its owner when the owner was requested", r.P.Pos(add.Pos()), okSpend, "")
+		}
+	}
+	r.Check("C07-R5", gb+": predicted array sites", "", nP == 1, "")
+	// reported fields
+	const U = "lookup(map{}[$1[i]])#0"
+	P := "coin.UxArray.Add(coin.UxArray.Sub(" + U + ", set{local:uxa[i].Body.Address}[$1[i]]), map{}[$1[i]])"
+	for _, st := range fo.StoreFacts() {
+		switch {
+		case strings.HasPrefix(st.S, "local:bp.Confirmed.Coins := "):
+			r.Check("C07-R5", gb+": Confirmed.Coins is the coin total of the confirmed outputs", r.P.Pos(st.In.Pos()), st.S == "local:bp.Confirmed.Coins := coin.UxArray.Coins("+U+")#0", trunc(st.S, 200))
+		case strings.HasPrefix(st.S, "local:bp.Confirmed.Hours := "):
+			r.Check("C07-R5", gb+": Confirmed.Hours is the hour total of the confirmed outputs at head time (0 on the tolerated overflow)", r.P.Pos(st.In.Pos()), strings.Contains(st.S, "coin.UxArray.CoinHours("+U+", local:head.Block.Head.Time)#0") && !strings.Contains(st.S, "UxArray.Add("), trunc(st.S, 200))
+		case strings.HasPrefix(st.S, "local:bp.Predicted.Coins := "):
+			r.Check("C07-R5", gb+": Predicted.Coins is the coin total of the predicted outputs", r.P.Pos(st.In.Pos()), st.S == "local:bp.Predicted.Coins := coin.UxArray.Coins("+P+")#0", trunc(st.S, 300))
+		case strings.HasPrefix(st.S, "local:bp.Predicted.Hours := "):
+			r.Check("C07-R5", gb+": Predicted.Hours is the hour total of the predicted outputs at head time", r.P.Pos(st.In.Pos()), strings.Contains(st.S, "coin.UxArray.CoinHours("+P+", local:head.Block.Head.Time)#0"), trunc(st.S, 300))
+		}
+	}
+	r.Min("C07-R5", 12)
+	// one pair per requested address, in order: every iteration appends exactly one pair
+	nApp := 0
+	for _, b := range outer.Blocks {
+		for _, in := range b.Instrs {
+			c, ok := in.(*ssa.Call)
+			if !ok || calleeName(&c.Call) != "append" || !strings.Contains(typeShort(c.Type()), "BalancePair") {
+				continue
+			}
+			nApp++
+			lp := fo.innermost[b]
+			r.Check("C07-R5", gb+": a balance pair is appended inside the loop over the requested addresses", r.P.Pos(c.Pos()), lp != nil && fo.loopSpace(lp) == "i < len($1)", "")
+		}
+	}
+	r.Check("C07-R5", gb+": balance-pair append sites", "", nApp == 2, "")
+	// the empty-pair branch is dead only if the confirmed map has an entry for every requested address
+	const gu = "visor/blockdb.Unspents.GetUnspentsOfAddrs"
+	if fn := r.fn("C07-R5", gu); fn != nil {
+		ff := r.P.Facts(fn)
+		n := 0
+		for _, b := range fn.Blocks {
+			for _, in := range b.Instrs {
+				mu, ok := in.(*ssa.MapUpdate)
+				if !ok {
+					continue
+				}
+				n++
+				lp := ff.innermost[b]
+				okk := lp != nil && ff.loopSpace(lp) == "i < len($2)" && ff.everyIteration(b, lp) && ff.Term(mu.Key) == "$2[i]" &&
+					glob("visor/blockdb.Unspents.GetArray($0, $1, visor/blockdb.poolAddrIndex.get($0.poolAddrIndex, $1, $2[i])#0)#0", ff.Term(mu.Value))
+				r.Check("C07-R5", gu+": every requested address gets an entry (possibly empty) holding exactly its indexed outputs", r.P.Pos(mu.Pos()), okk, "an address without an entry is reported with an all-zero balance pair, dropping its pool effects")
+			}
+		}
+		r.Check("C07-R5", gu+": map update sites", "", n == 1, "")
+		for _, e := range ff.Exits() {
+			if e.Kind == ExitSuccess && e.Ret != nil {
+				r.Check("C07-R5", gu+": returns the map it filled", r.P.Pos(e.Ret.Pos()), ff.Term(e.Ret.Results[0]) == "set{$2[i]}", ff.Term(e.Ret.Results[0]))
+			}
+		}
+	}
+	// incoming: every output of every pool transaction owned by a requested address
+	const tf = "visor.txnOutputsForAddrs"
+	if fn := r.fn("C07-R5", tf); fn != nil {
+		ff := r.P.Facts(fn)
+		n := 0
+		for _, b := range fn.Blocks {
+			for _, in := range b.Instrs {
+				mu, ok := in.(*ssa.MapUpdate)
+				if !ok || !strings.Contains(ff.Term(mu.Value), "CreateUnspent") {
+					continue
+				}
+				n++
+				guard, onlyGuard := false, true
+				for _, a := range ff.Must(b) {
+					if a.S == "lookup(set{$1[i]}[$2[i].Out[j].Address])#1" {
+						guard = true
+					}
+				}
+				lp := ff.innermost[b]
+				okk := guard && onlyGuard && lp != nil && ff.loopSpace(lp) == "j < len($2[i].Out)" && lp.Parent != nil && ff.loopSpace(lp.Parent) == "i < len($2)" &&
+					ff.Term(mu.Key) == "$2[i].Out[j].Address" && glob("append(*, [coin.CreateUnspent($0, $2[i], j)#0])", ff.Term(mu.Value))
+				r.Check("C07-R5", tf+": output j of transaction i is recorded under its own address exactly when that address was requested", r.P.Pos(mu.Pos()), okk, "")
+				// no other condition may skip an output: the only branches between the inner loop header and this block are the membership test
+				paths, okp := ff.PathFacts(b, 200)
+				extra := false
+				for _, p := range paths {
+					for _, a := range p {
+						if strings.Contains(a, ".Coins") || strings.Contains(a, ".Hours") {
+							extra = true
+						}
+					}
+				}
+				r.Check("C07-R5", tf+": no output is skipped on account of its amount", r.P.Pos(mu.Pos()), okp && !extra, "")
+			}
+		}
+		r.Check("C07-R5", tf+": record sites", "", n == 1, "")
 	}
 }
+
